@@ -135,7 +135,8 @@ def main(argv=None):
     mod = importlib.import_module("props." + pid.lower())
     opts = {"tier": tier, "seed": seed, "timeout": 20 if tier == "quick" else 120,
             "cvc5_timeout": 20 if tier == "quick" else 120,
-            "nrandom": 12 if tier == "quick" else 40, "validate": not args.no_validate, "witness": True}
+            "nrandom": 12 if tier == "quick" else 40, "validate": not args.no_validate, "witness": True,
+            "kernel_budget": 100 if tier == "quick" else 1200}
     opts.update(getattr(mod, "OPTS", {}).get(tier, {}))
     kernels = mod.kernels(opts)
     idx = list(range(len(kernels)))
